@@ -780,6 +780,13 @@ func (r *cacheRun) step(w *traceWriter, kind opKind, k int, ttl int64, cost int6
 		if inf.CostCap > 0 && inf.Cost > inf.CostCap {
 			r.viol("C03", fmt.Sprintf("shard %d weighs %d, budget %d (after %s)", i, inf.Cost, inf.CostCap, desc))
 		}
+		if inf.CostCap > 0 && r.wmode == 0 && inf.Size > inf.CostCap {
+			// no weigher: every entry weighs 1, so the weight budget bounds the number of entries (independent of the cost counter)
+			r.viol("C03", fmt.Sprintf("shard %d holds %d unit-weight entries, weight budget %d (after %s)", i, inf.Size, inf.CostCap, desc))
+		}
+	}
+	if r.conf.MaxCost > 0 && r.wmode == 0 && int64(len(post)) > r.conf.MaxCost {
+		r.viol("C03", fmt.Sprintf("%d resident unit-weight entries exceed MaxCost %d (after %s)", len(post), r.conf.MaxCost, desc))
 	}
 	if r.conf.MaxCost > 0 && r.wmode > 0 {
 		var w2 int64
@@ -1048,6 +1055,9 @@ func randCacheConfig(rng *rand.Rand, focus string) (kioshun.Config, int, int) {
 		wmode = 1 + rng.Intn(3)
 		if rng.Intn(4) == 0 {
 			conf.MaxSize = 0 // cost-only cache: no entry limit, evictions driven by weight alone
+		}
+		if rng.Intn(4) == 0 {
+			wmode = 0 // MaxCost without a weigher: every entry weighs 1
 		}
 		conf.CostAdmission = kioshun.CostAdmission(rng.Intn(3))
 	} else if rng.Intn(8) == 0 {
